@@ -16,6 +16,7 @@ import (
 	"context"
 	"encoding/json"
 	"fmt"
+	"log/slog"
 	"net"
 	"net/netip"
 	"os"
@@ -28,10 +29,12 @@ import (
 	"github.com/AdguardTeam/AdGuardHome/internal/dhcpsvc"
 	"github.com/AdguardTeam/AdGuardHome/internal/dnsforward"
 	"github.com/AdguardTeam/AdGuardHome/internal/filtering"
+	"github.com/AdguardTeam/AdGuardHome/internal/home"
 	"github.com/AdguardTeam/AdGuardHome/internal/schedule"
 	"github.com/AdguardTeam/AdGuardHome/verifsim/dnsnode"
 	"github.com/AdguardTeam/AdGuardHome/verifsim/env"
 	"github.com/AdguardTeam/AdGuardHome/verifsim/kernel"
+	"github.com/AdguardTeam/AdGuardHome/verifsim/sched"
 	"github.com/miekg/dns"
 	"pgregory.net/rapid"
 )
@@ -105,7 +108,7 @@ type Spec struct {
 
 // Op is one generated operation.
 type Op struct {
-	Kind string `json:"k"` // add update remove lease unlease advance lookup query
+	Kind string `json:"k"` // add update remove par restart lease unlease advance lookup query
 	Spec *Spec  `json:"spec,omitempty"`
 	Name string `json:"name,omitempty"` // update/remove target
 	// lease
@@ -117,6 +120,13 @@ type Op struct {
 	// lookup / query
 	ID  string `json:"id,omitempty"`
 	CID string `json:"cid,omitempty"`
+	// par: two or three registry operations (add / update / remove) issued at
+	// the same time; they run as tasks of the seeded cooperative scheduler,
+	// interleaved at lock boundaries as a function of Seed, with preemption
+	// probability Pct.
+	Par  []Op   `json:"par,omitempty"`
+	Seed uint64 `json:"seed,omitempty"`
+	Pct  int    `json:"pct,omitempty"`
 }
 
 // Scenario is one case.
@@ -172,6 +182,40 @@ func genSpec(t *rapid.T) *Spec {
 	return s
 }
 
+// genPar draws two or three registry operations that the administrator(s)
+// issue at the same time: any mixture of add / update / remove, most of them
+// aimed at one client (the same name as target, as new name, or both), the
+// rest anywhere.
+func genPar(t *rapid.T) Op {
+	op := Op{Kind: "par", Seed: rapid.Uint64().Draw(t, "par_seed"), Pct: rapid.SampledFrom([]int{20, 50, 80}).Draw(t, "par_pct")}
+	focus := rapid.SampledFrom(names).Draw(t, "par_focus")
+	pick := func(label string) string {
+		if rapid.IntRange(0, 9).Draw(t, label+"_on_focus") < 7 {
+			return focus
+		}
+		return rapid.SampledFrom(names).Draw(t, label)
+	}
+	for i, n := 0, rapid.SampledFrom([]int{2, 2, 2, 3}).Draw(t, "par_n"); i < n; i++ {
+		var sub Op
+		switch rapid.SampledFrom([]string{"add", "update", "update", "update", "remove"}).Draw(t, "par_kind") {
+		case "add":
+			sub = Op{Kind: "add", Spec: genSpec(t)}
+			if rapid.Bool().Draw(t, "par_add_focus") {
+				sub.Spec.Name = focus
+			}
+		case "update":
+			sub = Op{Kind: "update", Name: pick("par_target"), Spec: genSpec(t)}
+			if rapid.IntRange(0, 9).Draw(t, "par_keep_name") < 6 {
+				sub.Spec.Name = sub.Name
+			}
+		default:
+			sub = Op{Kind: "remove", Name: pick("par_target")}
+		}
+		op.Par = append(op.Par, sub)
+	}
+	return op
+}
+
 // Gen draws a scenario.
 func Gen(t *rapid.T, tier string) any {
 	sc := &Scenario{
@@ -186,7 +230,11 @@ func Gen(t *rapid.T, tier string) any {
 	}
 	for i, n := 0, rapid.IntRange(5, maxOps).Draw(t, "n_ops"); i < n; i++ {
 		var op Op
-		switch k := rapid.IntRange(0, 99).Draw(t, "kind"); {
+		switch k := rapid.IntRange(0, 111).Draw(t, "kind"); {
+		case k >= 109:
+			op = Op{Kind: "restart"}
+		case k >= 100:
+			op = genPar(t)
 		case k < 22:
 			op = Op{Kind: "add", Spec: genSpec(t)}
 		case k < 37:
@@ -301,6 +349,53 @@ func (m *model) clash(spec *Spec, self string) string {
 	return ""
 }
 
+// serial applies one registry operation (add / update / remove) to the
+// reference registry the way the statement has it — accepted unless it names
+// a client that does not exist or would make two clients share a name or an
+// identifier; a rejected operation changes nothing — and says whether it is
+// accepted.
+func (m *model) serial(op *Op) (accepted bool) {
+	switch op.Kind {
+	case "add":
+		if m.clash(op.Spec, "") != "" {
+			return false
+		}
+		m.clients[op.Spec.Name] = op.Spec
+	case "update":
+		if _, ok := m.clients[op.Name]; !ok || m.clash(op.Spec, op.Name) != "" {
+			return false
+		}
+		delete(m.clients, op.Name)
+		m.clients[op.Spec.Name] = op.Spec
+	case "remove":
+		if _, ok := m.clients[op.Name]; !ok {
+			return false
+		}
+		delete(m.clients, op.Name)
+	}
+	return true
+}
+
+func cloneClients(in map[string]*Spec) map[string]*Spec {
+	out := make(map[string]*Spec, len(in))
+	for k, v := range in {
+		out[k] = v
+	}
+	return out
+}
+
+// orders returns every order of n operations (n <= 3), in a fixed sequence.
+func orders(n int) [][]int {
+	switch n {
+	case 1:
+		return [][]int{{0}}
+	case 2:
+		return [][]int{{0, 1}, {1, 0}}
+	default:
+		return [][]int{{0, 1, 2}, {0, 2, 1}, {1, 0, 2}, {1, 2, 0}, {2, 0, 1}, {2, 1, 0}}
+	}
+}
+
 // attribute implements the precedence of the statement.
 func (m *model) attribute(cid string, addr netip.Addr) (name, how string) {
 	if cid != "" {
@@ -372,9 +467,12 @@ func (m *model) effective(cid string, addr netip.Addr) effective {
 // ---- run ---------------------------------------------------------------------
 
 type runner struct {
-	c *kernel.Ctx
-	n *dnsnode.Node
-	m *model
+	c   *kernel.Ctx
+	n   *dnsnode.Node
+	m   *model
+	cfg *dnsnode.Config
+	// abandon: a deadlock was found; the parked tasks hold the node's locks.
+	abandon bool
 }
 
 func toPersistent(s *Spec) (*client.Persistent, error) {
@@ -594,6 +692,10 @@ func (r *runner) apply(op Op) error {
 		if ok {
 			r.c.Probe("client_removed")
 		}
+	case "par":
+		return r.par(op)
+	case "restart":
+		return r.restart()
 	case "lease":
 		mac, _ := net.ParseMAC(op.MAC)
 		l := lease{mac: mac}
@@ -638,6 +740,328 @@ func (r *runner) apply(op Op) error {
 	return nil
 }
 
+func describe(op *Op) string {
+	switch op.Kind {
+	case "add":
+		return fmt.Sprintf("add %s %v", op.Spec.Name, op.Spec.IDs)
+	case "update":
+		return fmt.Sprintf("update %s -> %s %v", op.Name, op.Spec.Name, op.Spec.IDs)
+	default:
+		return "remove " + op.Name
+	}
+}
+
+func answer(accepted bool) string {
+	if accepted {
+		return "accepted"
+	}
+	return "rejected"
+}
+
+// par issues the registry operations of op at the same time: they run as
+// tasks of the seeded cooperative scheduler, interleaved at the lock
+// boundaries of the real storage.  The statement speaks of sequences of
+// operations: whatever the interleaving, what every operation was answered
+// (accepted / rejected) and the registry afterwards (the dump and every
+// lookup of checkRegistry) must be those of ONE of the serial orders of the
+// operations according to the reference model; the model goes on from the
+// order that matched.
+func (r *runner) par(op Op) error {
+	ctx := context.Background()
+	k := len(op.Par)
+	if k < 1 || k > 3 {
+		return fmt.Errorf("harness: par with %d operations", k)
+	}
+	ps := make([]*client.Persistent, k)
+	var what, tnames []string
+	for i := range op.Par {
+		sub := &op.Par[i]
+		if sub.Spec != nil {
+			p, err := toPersistent(sub.Spec)
+			if err != nil {
+				return err
+			}
+			ps[i] = p
+		}
+		what = append(what, describe(sub))
+		tnames = append(tnames, sub.Kind)
+	}
+	before := r.dump()
+	acc := make([]bool, k)
+	errs := make([]error, k)
+	fns := make([]func(), k)
+	for i := range op.Par {
+		sub := &op.Par[i]
+		switch sub.Kind {
+		case "add":
+			fns[i] = func() { errs[i] = r.n.Clients.Add(ctx, ps[i]); acc[i] = errs[i] == nil }
+		case "update":
+			fns[i] = func() { errs[i] = r.n.Clients.Update(ctx, sub.Name, ps[i]); acc[i] = errs[i] == nil }
+		case "remove":
+			fns[i] = func() { acc[i] = r.n.Clients.RemoveByName(ctx, sub.Name) }
+		default:
+			return fmt.Errorf("harness: par operation %q", sub.Kind)
+		}
+	}
+	res := sched.Run(op.Seed, op.Pct, tnames, fns)
+	r.c.Fault("concurrent_registry_ops")
+	r.c.Probes["sched_steps"] += res.Steps
+	r.c.Probes["sched_switches"] += res.Switches
+	if res.Deadlock != "" {
+		r.abandon = true
+		return kernel.Violationf("deadlock: "+res.Deadlock, "concurrent %s, schedule seed %d: every task waits for a lock:\n%s", strings.Join(what, " || "), op.Seed, res.Detail)
+	}
+	kernel.Wait()
+
+	// The serial orders according to the reference model.
+	base := r.m.clients
+	touched := map[string]int{}
+	for i := range op.Par {
+		sub := &op.Par[i]
+		if _, ok := base[sub.Name]; ok && sub.Kind != "add" {
+			touched[sub.Name]++
+		}
+	}
+	for _, cnt := range touched {
+		if cnt > 1 {
+			r.c.Probe("par_same_client")
+			break
+		}
+	}
+	var answers []string
+	for i := range acc {
+		answers = append(answers, answer(acc[i]))
+	}
+	var tried []string
+	outcomes := map[string]bool{}
+	matched := -1
+	var matchedClients map[string]*Spec
+	for oi, ord := range orders(k) {
+		r.m.clients = cloneClients(base)
+		want := make([]bool, k)
+		for _, i := range ord {
+			want[i] = r.m.serial(&op.Par[i])
+		}
+		outcomes[fmt.Sprint(want)+r.modelDump()] = true
+		if matched >= 0 {
+			continue
+		}
+		why := ""
+		for i := range want {
+			if want[i] != acc[i] {
+				why = fmt.Sprintf("operation %d (%s) would be %s, it was %s", i, what[i], answer(want[i]), answer(acc[i]))
+				break
+			}
+		}
+		if why == "" {
+			if err := r.checkRegistry(); err != nil {
+				v, ok := err.(*kernel.Violation)
+				if !ok {
+					r.m.clients = base
+					return err
+				}
+				why = v.Class + ": " + strings.SplitN(v.Msg, "\n", 2)[0]
+			}
+		}
+		if why == "" {
+			matched, matchedClients = oi, r.m.clients
+			continue
+		}
+		tried = append(tried, fmt.Sprintf("  order %v: %s", ord, why))
+	}
+	if len(outcomes) > 1 {
+		r.c.Probe("par_orders_differ")
+	}
+	r.c.Eventf("par %s -> %s matched_order=%d steps=%d", strings.Join(what, " || "), strings.Join(answers, ","), matched, res.Steps)
+	if matched < 0 {
+		r.m.clients = base
+		return kernel.Violationf("concurrent-ops-no-serial-order", "concurrent %s (schedule seed %d, preemption %d%%) were answered %s; the answers and the registry afterwards are those of no serial order of these operations:\n%s\nregistry before:\n%s\nregistry after:\n%s",
+			strings.Join(what, " || "), op.Seed, op.Pct, strings.Join(answers, ","), strings.Join(tried, "\n"), before, r.dump())
+	}
+	r.m.clients = matchedClients
+	r.c.Probe("par_serializable")
+	for i := range acc {
+		if acc[i] {
+			r.c.Probe("par_op_accepted")
+		} else {
+			r.c.Probe("par_op_rejected")
+		}
+	}
+	return nil
+}
+
+// effectiveAll is what the filtering module makes of a request from every
+// source address of the universe, without and with every ClientID.
+func (r *runner) effectiveAll() string {
+	var b strings.Builder
+	for _, ip := range srcIPs {
+		addr := netip.MustParseAddr(ip)
+		for _, cid := range append([]string{""}, cidIDs...) {
+			setts := r.n.Filter.Settings()
+			r.n.Filter.ApplyAdditionalFiltering(addr, cid, setts)
+			fmt.Fprintf(&b, "%s cid=%q: client=%q filt=%v sb=%v par=%v ss=%v svc=%v\n", ip, cid, setts.ClientName, setts.FilteringEnabled, setts.SafeBrowsingEnabled, setts.ParentalEnabled, setts.SafeSearchEnabled, svcNames(setts))
+		}
+	}
+	return b.String()
+}
+
+func firstDiff(a, b string) string {
+	la, lb := strings.Split(a, "\n"), strings.Split(b, "\n")
+	for i := 0; i < len(la) && i < len(lb); i++ {
+		if la[i] != lb[i] {
+			return fmt.Sprintf("before: %s\nafter:  %s", la[i], lb[i])
+		}
+	}
+	return fmt.Sprintf("%d lines before, %d after", len(la), len(lb))
+}
+
+// restart stops the node and starts a new one whose persistent clients are
+// those that the system itself wrote: the real configuration writer (home's
+// forConfig inside configuration.write) puts the registry into the
+// configuration file, the real parseConfig reads the file back, and the
+// clients are converted the way the clients container does at start.  The
+// simulated clock does not move, the DHCP peer keeps its leases: the registry,
+// every lookup and the effective settings of every source must be what they
+// were (and, checked after the operation as after any other, what the
+// reference model says).
+func (r *runner) restart() error {
+	ctx := context.Background()
+	beforeReg, beforeEff, before := r.dump(), r.effectiveAll(), r.snapshot()
+	if err := home.VerifClientsWriteConfig(r.cfg.Dir, r.n.Clients); err != nil {
+		return fmt.Errorf("harness: writing the configuration: %w", err)
+	}
+	r.n.Close()
+	r.n = nil
+	ps, err := home.VerifClientsReloadFromConfig(ctx, slog.New(slog.DiscardHandler))
+	if err != nil {
+		if strings.Contains(err.Error(), "init persistent client") {
+			return kernel.Violationf("restart-reload-failed", "the persistent clients that the configuration writer stored are refused at start: %v\nregistry before:\n%s", err, beforeReg)
+		}
+		return fmt.Errorf("harness: reloading the configuration: %w", err)
+	}
+	cfg := *r.cfg
+	cfg.InitialClients = ps
+	n, err := dnsnode.New(&cfg)
+	if err != nil {
+		if strings.Contains(err.Error(), "client storage") {
+			return kernel.Violationf("restart-reload-failed", "the persistent clients that the configuration writer stored are refused at start: %v\nregistry before:\n%s", err, beforeReg)
+		}
+		return err
+	}
+	r.n = n
+	kernel.Wait()
+	r.c.Fault("restart_reload_clients")
+	r.c.Eventf("restart clients=%d", len(ps))
+	if len(ps) > 0 {
+		r.c.Probe("restart_with_clients")
+	}
+	for _, c := range r.m.clients {
+		if c.OwnSettings != c.OwnServices {
+			r.c.Probe("restart_with_mixed_opt_outs")
+			break
+		}
+	}
+	after := r.snapshot()
+	afterReg := r.dump()
+	// 1. The same clients.
+	if got, want := strings.Join(snapNames(after), ","), strings.Join(snapNames(before), ","); got != want {
+		return kernel.Violationf("restart-changed-registry", "after a restart (clients written to the configuration file and loaded from it) the registry holds the clients [%s], before it held [%s]\nregistry before:\n%s\nregistry after:\n%s", got, want, beforeReg, afterReg)
+	}
+	// 2. With the same identifiers.
+	var affected []string
+	for _, name := range snapNames(before) {
+		b, a := before[name], after[name]
+		if strings.Join(b.ids, " ") == strings.Join(a.ids, " ") {
+			continue
+		}
+		class := "restart-gained-identifier"
+		for _, id := range b.ids {
+			if !contains(a.ids, id) {
+				class = "restart-lost-identifier-" + strings.SplitN(id, ":", 2)[0]
+				break
+			}
+		}
+		v := kernel.Violationf(class, "after a restart (clients written to the configuration file and loaded from it) client %q has the identifiers %v, before it had %v\nregistry before:\n%s\nregistry after:\n%s", name, a.ids, b.ids, beforeReg, afterReg)
+		if !r.c.Tolerate(v) {
+			return v
+		}
+		affected = append(affected, name)
+	}
+	// 3. Applying the same settings to every source.
+	if len(affected) == 0 {
+		if afterEff := r.effectiveAll(); afterEff != beforeEff {
+			return kernel.Violationf("restart-changed-effective-settings", "after a restart (clients written to the configuration file and loaded from it) the effective settings differ:\n%s\nregistry before:\n%s\nregistry after:\n%s", firstDiff(beforeEff, afterEff), beforeReg, afterReg)
+		}
+	}
+	// 4. And showing the same settings.
+	for _, name := range snapNames(before) {
+		if b, a := before[name], after[name]; b.settings != a.settings {
+			return kernel.Violationf("restart-changed-client-settings", "after a restart (clients written to the configuration file and loaded from it) client %q has the settings %s, before it had %s\nregistry before:\n%s\nregistry after:\n%s", name, a.settings, b.settings, beforeReg, afterReg)
+		}
+	}
+	// A listed finding changed identifiers: the administrator enters the
+	// client again as it was, and the history goes on.
+	for _, name := range affected {
+		p, err := toPersistent(r.m.clients[name])
+		if err != nil {
+			return err
+		}
+		if err = r.n.Clients.Update(ctx, name, p); err != nil {
+			return fmt.Errorf("harness: re-entering client %q after a listed finding: %w", name, err)
+		}
+		r.c.Eventf("restart: client %s re-entered", name)
+	}
+	return nil
+}
+
+type clientSnap struct {
+	// ids are the identifiers by kind ("ip:", "net:", "mac:", "cid:" + text).
+	ids      []string
+	settings string
+}
+
+// snapshot is the registry by client name: identifiers and shown settings.
+func (r *runner) snapshot() map[string]clientSnap {
+	out := map[string]clientSnap{}
+	r.n.Clients.RangeByName(func(c *client.Persistent) bool {
+		var ids []string
+		for _, ip := range c.IPs {
+			ids = append(ids, "ip:"+ip.String())
+		}
+		for _, n := range c.Subnets {
+			ids = append(ids, "net:"+n.String())
+		}
+		for _, mac := range c.MACs {
+			ids = append(ids, "mac:"+mac.String())
+		}
+		for _, cid := range c.ClientIDs {
+			ids = append(ids, "cid:"+cid)
+		}
+		sort.Strings(ids)
+		out[c.Name] = clientSnap{ids: ids, settings: fmt.Sprintf("own=%v/%v/%v/%v/%v svc=%v/%v pause=%s", c.UseOwnSettings, c.FilteringEnabled, c.SafeBrowsingEnabled, c.ParentalEnabled, c.SafeSearchConf.Enabled, c.UseOwnBlockedServices, c.BlockedServices.IDs, schedText(c.BlockedServices.Schedule))}
+		return true
+	})
+	return out
+}
+
+func snapNames(m map[string]clientSnap) []string {
+	var ns []string
+	for n := range m {
+		ns = append(ns, n)
+	}
+	sort.Strings(ns)
+	return ns
+}
+
+func contains(ids []string, id string) bool {
+	for _, x := range ids {
+		if x == id {
+			return true
+		}
+	}
+	return false
+}
+
 // endToEnd sends a real DNS request for a name that a custom rule blocks: it
 // must be blocked exactly when filtering is in effect for the attributed
 // client.
@@ -666,6 +1090,7 @@ func (r *runner) endToEnd(cid string, addr netip.Addr) error {
 func Run(t *testing.T, scAny any, c *kernel.Ctx) error {
 	sc := scAny.(*Scenario)
 	dnsnode.InitProcess()
+	sched.Init()
 	dir, err := kernel.TempDir("c04")
 	if err != nil {
 		return err
@@ -689,8 +1114,12 @@ func Run(t *testing.T, scAny any, c *kernel.Ctx) error {
 		if err != nil {
 			return err
 		}
-		defer n.Close()
-		r := &runner{c: c, n: n, m: &model{clients: map[string]*Spec{}, sc: sc, dhcp: dh}}
+		r := &runner{c: c, n: n, cfg: cfg, m: &model{clients: map[string]*Spec{}, sc: sc, dhcp: dh}}
+		defer func() {
+			if r.n != nil && !r.abandon {
+				r.n.Close()
+			}
+		}()
 		kernel.Wait()
 		for i, op := range sc.Ops {
 			c.Eventf("op %d %s", i, op.Kind)
@@ -719,6 +1148,7 @@ var Prop = &kernel.Property{
 	ID:    "C04",
 	Level: "exploration",
 	Rule: "seeded histories (rapid) of add / update (rename, swap and drop identifiers) / remove over 5 names with identifiers from small pools (IPs, nested CIDRs /0../31 v4 and v6, MACs of 6/8/20 bytes, ClientIDs) so that clashes are frequent, interleaved with DHCP lease set/remove, clock advances past lease expiry, lookups by every identifier, effective-settings probes and real DNS requests with and without ClientID; the global and every client's own blocked services carry a pause schedule (none, whole day, or a window whose edges the clock advances of the case cross), and the effective blocked services are compared at whatever the simulated clock shows; after every op the whole registry and every identifier of the universe are compared with the map model; " +
+		"op 'par': two or three registry operations (add / update / remove, mostly on one client) run as concurrent tasks under the seeded cooperative scheduler (interleaved at lock boundaries), and their answers plus the registry afterwards must equal those of one serial order of the reference model, from which the model continues; op 'restart': the real configuration writer stores the registry (home's forConfig -> YAML file), the real parseConfig reads it back, a new node starts from those clients, and the effective settings of every (source, ClientID) and the registry must be unchanged; " +
 		"non-trivial = at least one accepted add/update, one rejected clash and one attribution by something other than 'nobody'; distinct = distinct scenario digests",
 	Gen: Gen,
 	New: func() any { return &Scenario{} },
@@ -729,7 +1159,8 @@ var Prop = &kernel.Property{
 	Real:        []string{"internal/client (Storage, index, Persistent)", "internal/filtering (Settings, ApplyAdditionalFiltering, blocked services)", "internal/dnsforward request pipeline (end-to-end attribution)", "dnsproxy request path"},
 	Stub:        []string{"DHCP lease table (seeded, leases expire on the simulated clock)", "upstream resolver", "client sockets", "safe-browsing / parental checkers (never block)"},
 	Assumptions: []string{"pause schedules are in UTC with the same range every weekday (zones, weekdays and DST are C18's subject); the reference reads hour/minute/second of the instant in UTC", "clients are built with Persistent.SetIDs from identifier strings, as the admin API does", "two clients may hold overlapping (non-identical) CIDRs; identical CIDRs clash"},
-	FaultKinds:  []string{"dhcp_lease_change", "dhcp_lease_expired"},
+	FaultKinds:  []string{"dhcp_lease_change", "dhcp_lease_expired", "concurrent_registry_ops", "restart_reload_clients"},
 	ProbeNames: []string{"client_added", "client_updated", "client_renamed", "client_removed", "clash_rejected", "attributed_by_clientid", "attributed_by_ip", "attributed_by_cidr", "attributed_by_mac", "attributed_to_nobody", "e2e_query",
-		"query_in_global_pause", "query_in_own_pause", "query_in_own_pause_global_list_active", "query_outside_own_pause"},
+		"query_in_global_pause", "query_in_own_pause", "query_in_own_pause_global_list_active", "query_outside_own_pause",
+		"par_same_client", "par_orders_differ", "par_serializable", "par_op_accepted", "par_op_rejected", "sched_steps", "sched_switches", "restart_with_clients", "restart_with_mixed_opt_outs"},
 }
